@@ -144,12 +144,12 @@ Lemma make_config_inv : forall table s cfg, make_config table s = Some cfg ->
   (In (fst (c_chunk cfg)) table /\ map fst (snd (c_chunk cfg)) = param_names (fst (c_chunk cfg))).
 Proof.
   intros table s cfg H. unfold make_config in H.
-  destruct (from_config table "blake2b" _ []) as [[ah argh]|] eqn:Eh; [|discriminate].
-  destruct (from_config table "gclmulchunker" _ []) as [[ac argc]|] eqn:Ec; [|discriminate].
+  destruct (from_config table DEFAULT_HASHER_NAME _ []) as [[ah argh]|] eqn:Eh; [|discriminate].
+  destruct (from_config table DEFAULT_CHUNKER_NAME _ []) as [[ac argc]|] eqn:Ec; [|discriminate].
   apply from_config_inv in Eh. apply from_config_inv in Ec.
   assert (G : c_hash cfg = (ah, argh) /\ c_chunk cfg = (ac, argc)).
   { destruct (lookup "encryption" s) as [[| | | | | |]|];
-      try (destruct (from_config table "aes_gcm" _ []); [|discriminate]); injection H as <-; split; reflexivity. }
+      try (destruct (from_config table DEFAULT_CIPHER_NAME _ []); [|discriminate]); injection H as <-; split; reflexivity. }
   destruct G as [-> ->]. split; assumption.
 Qed.
 
@@ -212,9 +212,9 @@ Proof.
     destruct (st_instantiated s) eqn:EI; [|discriminate]. cbn [negb] in H.
     destruct (st_sizes s) as [[kb nb]|] eqn:ES.
     + destruct (st_pwlen s) as [pl|]; [|discriminate].
-      destruct (from_config table "scrypt" _ _) as [kdf|]; [|discriminate].
-      destruct (from_config table "blake2b" [] [("length", num_value kb)]) as [sh|]; [|discriminate].
-      destruct (from_config table "blake2b" [] []) as [mac|]; [|discriminate].
+      destruct (from_config table DEFAULT_USER_KDF_NAME _ _) as [kdf|]; [|discriminate].
+      destruct (from_config table DEFAULT_SHARED_KDF_NAME [] [("length", num_value kb)]) as [sh|]; [|discriminate].
+      destruct (from_config table DEFAULT_MAC_NAME [] []) as [mac|]; [|discriminate].
       match type of H with (if ?c then _ else _) = _ => destruct c; [|discriminate] end. injection H as <-.
       unfold Inv, settings_dict. cbn. repeat split; try (intros; discriminate).
       * exact I1.
@@ -416,7 +416,7 @@ Theorem add_key_accept_usable : forall pw kb s kdf, add_key_accept_std pw kb s =
 Proof.
   intros pw kb s kdf H. unfold add_key_accept_std, add_key_accept in H.
   destruct (negb _); [discriminate|]. destruct pw as [pl|]; [|discriminate].
-  destruct (from_config adapters "scrypt" _ _) as [k|]; [|discriminate].
+  destruct (from_config adapters DEFAULT_USER_KDF_NAME _ _) as [k|]; [|discriminate].
   destruct (construct (fst k) (snd k)); [|discriminate]. cbn [andb] in H.
   destruct (has_kind KKdf (fst k)) eqn:E1; [|discriminate]. cbn [andb] in H.
   destruct (kdf_domain (a_name (fst k)) (snd k) kb pl) eqn:E2; [|discriminate].
